@@ -36,15 +36,17 @@
     `index-redefined-old-columns-dropped` read downwards.
 
   * `schema_on_reference_engine` — **the whole down migration, the executable predicate `Spec.c02` itself**: for scripts
-    without foreign keys and inline PRIMARY KEY (MySQL reader model, default field order), tables on
-    both sides order-compatible with the same primary key and outside the recorded region, `modelDown` returns, and
-    its statements — DROP TABLE for what the up migration created, the column and index statements of the tables both
-    sides have, CREATE TABLE with indexes for what the up migration dropped —, executed by `Spec.execAll` on the *new*
+    without inline PRIMARY KEY (MySQL reader model, default field order), tables on
+    both sides order-compatible with the same primary key and outside the recorded regions (an index redefined while
+    its new columns go; a foreign key redefined under its name), `modelDown` returns, and
+    its statements — DROP TABLE for what the up migration created, the column, index and foreign-key statements of the
+    tables both sides have (`table_spec_down_fk_any`, `Abs.Idx.emitDownKeepSup`), CREATE TABLE with indexes and foreign
+    keys for what the up migration dropped —, executed by `Spec.execAll` on the *new*
     schema (referential checks aside), are well-formed at every step, end in a schema `DB.equiv` to the *old* one, and
-    each acts on an element that differs (Proofs/SpecTableDown, SpecJustifiedDown, SpecSchemaDown).  With
+    each acts on an element that differs (Proofs/SpecTableDown, SpecTableFkDown, SpecJustifiedDown, SpecSchemaDown).  With
     `C01.schema_on_reference_engine`: on the reference engine, down undoes up.
 
-  Missing for the full statement: as for C01 (a changed primary key, foreign keys on the reference engine); covered by
+  Missing for the full statement: as for C01 (a changed primary key, the referential checks of the reference engine); covered by
   correspondence + the executable predicate `Spec.c02` on the implementation's printed down migration.
 -/
 import SqlizeModel.Abs.Columns
@@ -263,13 +265,13 @@ theorem schema_on_reference_engine (g : Globals) (hg : g.dialect = .mysql) (hio 
     (hpo : old.all Stmt.plainOpts = true) (hpn : new.all Stmt.plainOpts = true)
     (heo : execAll rc [] old = some dbO) (hen : execAll rc [] new = some dbN)
     (hdef : ∀ tb ∈ dbO ++ dbN, tb.name ≠ Migration.defaultMigrationTable)
-    (hnofk : ∀ tb ∈ dbO ++ dbN, tb.fks = [])
     (hboth : ∀ tbO ∈ dbO, ∀ tbN ∈ dbN, tbO.name = tbN.name →
       Abs.OrderCompatible tbN.colNames tbO.colNames ∧ (∀ n ∈ tbN.colNames ++ tbO.colNames, n ≠ "") ∧ tbO.pk = tbN.pk ∧
       (∀ dc : List String, (∀ c ∈ dc, c ∉ tbO.colNames) →
-        ∀ s ∈ tbN.idxs, ∀ o ∈ tbO.idxs, o.name = s.name → o ≠ s → ∃ c ∈ s.cols, c ∉ dc)) :
+        ∀ s ∈ tbN.idxs, ∀ o ∈ tbO.idxs, o.name = s.name → o ≠ s → ∃ c ∈ s.cols, c ∉ dc) ∧
+      (∀ s ∈ tbN.fks, ∀ o ∈ tbO.fks, s.name = o.name → s = o)) :
     ∃ down, modelDown g old new = .ok down ∧ c02 g.ignoreOrder dbO dbN down false = .ok () := by
-  obtain ⟨d, out, hd, hU, ⟨db', he, heq⟩, hj⟩ := schema_spec_down g hg hio rc old new dbO dbN ho hn hpo hpn heo hen hdef hnofk hboth
+  obtain ⟨d, out, hd, hU, ⟨db', he, heq⟩, hj⟩ := schema_spec_down g hg hio rc old new dbO dbN ho hn hpo hpn heo hen hdef hboth
   refine ⟨out.flatten, ?_, ?_⟩
   · unfold modelDown
     simp only [hd, hU, bind, Except.bind, pure, Except.pure]
@@ -289,19 +291,19 @@ theorem up_then_down_on_reference_engine (g : Globals) (hg : g.dialect = .mysql)
     (hpo : old.all Stmt.plainOpts = true) (hpn : new.all Stmt.plainOpts = true)
     (heo : execAll rc [] old = some dbO) (hen : execAll rc [] new = some dbN)
     (hdef : ∀ tb ∈ dbO ++ dbN, tb.name ≠ Migration.defaultMigrationTable)
-    (hnofk : ∀ tb ∈ dbO ++ dbN, tb.fks = [])
     (hboth : ∀ tbO ∈ dbO, ∀ tbN ∈ dbN, tbO.name = tbN.name →
       Abs.OrderCompatible tbN.colNames tbO.colNames ∧ (∀ n ∈ tbN.colNames ++ tbO.colNames, n ≠ "") ∧ tbO.pk = tbN.pk ∧
       (∀ dc : List String, (∀ c ∈ dc, c ∉ tbN.colNames) →
         ∀ s ∈ tbN.idxs, ∀ o ∈ tbO.idxs, o.name = s.name → o ≠ s → ∃ c ∈ o.cols, c ∉ dc) ∧
       (∀ dc : List String, (∀ c ∈ dc, c ∉ tbO.colNames) →
-        ∀ s ∈ tbN.idxs, ∀ o ∈ tbO.idxs, o.name = s.name → o ≠ s → ∃ c ∈ s.cols, c ∉ dc)) :
+        ∀ s ∈ tbN.idxs, ∀ o ∈ tbO.idxs, o.name = s.name → o ≠ s → ∃ c ∈ s.cols, c ∉ dc) ∧
+      (∀ s ∈ tbN.fks, ∀ o ∈ tbO.fks, s.name = o.name → s = o)) :
     ∃ up down, modelUp g old new = .ok up ∧ modelDown g old new = .ok down ∧
       c01 g.ignoreOrder dbO dbN up false = .ok () ∧ c02 g.ignoreOrder dbO dbN down false = .ok () := by
-  obtain ⟨up, h1, h2⟩ := C01.schema_on_reference_engine g hg hio rc old new dbO dbN ho hn hpo hpn heo hen hdef hnofk
-    (fun a ha b hb e => by obtain ⟨x1, x2, x3, x4, _⟩ := hboth a ha b hb e; exact ⟨x1, x2, x3, x4⟩)
-  obtain ⟨down, h3, h4⟩ := schema_on_reference_engine g hg hio rc old new dbO dbN ho hn hpo hpn heo hen hdef hnofk
-    (fun a ha b hb e => by obtain ⟨x1, x2, x3, _, x5⟩ := hboth a ha b hb e; exact ⟨x1, x2, x3, x5⟩)
+  obtain ⟨up, h1, h2⟩ := C01.schema_on_reference_engine g hg hio rc old new dbO dbN ho hn hpo hpn heo hen hdef
+    (fun a ha b hb e => by obtain ⟨x1, x2, x3, x4, _, x6⟩ := hboth a ha b hb e; exact ⟨x1, x2, x3, x4, x6⟩)
+  obtain ⟨down, h3, h4⟩ := schema_on_reference_engine g hg hio rc old new dbO dbN ho hn hpo hpn heo hen hdef
+    (fun a ha b hb e => by obtain ⟨x1, x2, x3, _, x5, x6⟩ := hboth a ha b hb e; exact ⟨x1, x2, x3, x5, x6⟩)
   exact ⟨up, down, h1, h3, h2, h4⟩
 
 -- non-vacuity of `schema_on_reference_engine`: the pair of `C01.exOldW` / `C01.exNewW` (a table created with a key and two
@@ -313,6 +315,11 @@ example : ∃ down dbO dbN, modelDown {} C01.exOldW C01.exNewW = .ok down ∧ ex
 example : ∃ down dbO dbN, modelDown {} C01.exOldW C01.exNewW = .ok down ∧ execAll true [] C01.exOldW = some dbO ∧
     execAll true [] C01.exNewW = some dbN ∧ (c02 false dbO dbN down false).toOption = some () :=
   ⟨_, _, _, by rfl, by rfl, by rfl, by decide⟩
+-- … and with foreign keys, the pair `C01.exOldFk` / `C01.exNewFk`: the key the up migration created with its column is
+-- not dropped (DROP COLUMN takes it), the keys it dropped are added again, the dropped table comes back with its key
+example : ∃ down dbO dbN, modelDown {} C01.exOldFk C01.exNewFk = .ok down ∧ execAll true [] C01.exOldFk = some dbO ∧
+    execAll true [] C01.exNewFk = some dbN ∧ down.length = 7 ∧ (c02 false dbO dbN down false).toOption = some () :=
+  ⟨_, _, _, by rfl, by rfl, by rfl, by decide, by decide⟩
 
 /-- the same for either setting of the ignore-field-order option (`Spec.c02` compares up to column order under the option) -/
 theorem schema_on_reference_engine_either_setting (g : Globals) (hg : g.dialect = .mysql) (rc : Bool)
@@ -320,13 +327,13 @@ theorem schema_on_reference_engine_either_setting (g : Globals) (hg : g.dialect 
     (hpo : old.all Stmt.plainOpts = true) (hpn : new.all Stmt.plainOpts = true)
     (heo : execAll rc [] old = some dbO) (hen : execAll rc [] new = some dbN)
     (hdef : ∀ tb ∈ dbO ++ dbN, tb.name ≠ Migration.defaultMigrationTable)
-    (hnofk : ∀ tb ∈ dbO ++ dbN, tb.fks = [])
     (hboth : ∀ tbO ∈ dbO, ∀ tbN ∈ dbN, tbO.name = tbN.name →
       Abs.OrderCompatible tbN.colNames tbO.colNames ∧ (∀ n ∈ tbN.colNames ++ tbO.colNames, n ≠ "") ∧ tbO.pk = tbN.pk ∧
       (∀ dc : List String, (∀ c ∈ dc, c ∉ tbO.colNames) →
-        ∀ s ∈ tbN.idxs, ∀ o ∈ tbO.idxs, o.name = s.name → o ≠ s → ∃ c ∈ s.cols, c ∉ dc)) :
+        ∀ s ∈ tbN.idxs, ∀ o ∈ tbO.idxs, o.name = s.name → o ≠ s → ∃ c ∈ s.cols, c ∉ dc) ∧
+      (∀ s ∈ tbN.fks, ∀ o ∈ tbO.fks, s.name = o.name → s = o)) :
     ∃ down, modelDown g old new = .ok down ∧ c02 g.ignoreOrder dbO dbN down false = .ok () :=
-  schema_down_any g hg rc old new dbO dbN ho hn hpo hpn heo hen hdef hnofk hboth
+  schema_down_any g hg rc old new dbO dbN ho hn hpo hpn heo hen hdef hboth
 
 example : ∃ down dbO dbN, modelDown { ignoreOrder := true } C01.exOldW C01.exNewW = .ok down ∧ execAll true [] C01.exOldW = some dbO ∧
     execAll true [] C01.exNewW = some dbN ∧ (c02 true dbO dbN down false).toOption = some () :=
